@@ -25,7 +25,7 @@ func init() {
 				Procs:    16,
 				Rule: "exhaustive over a universe of 5 elements: every (receiver, argument) pair of the 34 operands {nil, empty non-nil, 32 subsets incl. a second empty} for Intersects/IsSubset/Equals/AddAll/RemoveAll; every receiver x every argument list of length <= 3 (<= 4 thorough) with repetitions for HasAll/HasAny/Add/Remove/New; every 0..3-operand combination and random 4..12-operand combinations for Intersect; Append into prefixes with every amount of spare capacity from 0 to len+6; Clone/Keys/Values/Range/NewSize/Slice/Append/Pop/Clear/IsEmpty/Len/Has on every operand; results checked for value, non-nilness and non-aliasing (mutating the result must not change an argument and vice versa). " +
 					"Histories of Add/AddAll/Remove/RemoveAll/Pop/Clear over two sets (the second used as argument of the first), starting from nil or non-nil, with membership and Len of BOTH sets after every step. distinct = enumerated operand tuples, histories by hash; non-trivial = at least one operand is non-empty",
-				Required:     []string{"binary_predicate_pairs", "variadic_cases", "variadic_with_duplicates", "intersect_cases", "aliasing_checks", "pop_checks", "history_steps", "nil_receiver_cases", "intersect_many_operands", "append_spare_capacity_cases"},
+				Required:     []string{"binary_predicate_pairs", "variadic_cases", "variadic_with_duplicates", "intersect_cases", "aliasing_checks", "pop_checks", "history_steps", "nil_receiver_cases", "intersect_many_operands", "append_spare_capacity_cases", "second_handle_checks"},
 				Exhaustive:   true,
 				Assumptions:  []string{"reference: 5-bit masks"},
 				CoverPkgs:    []string{"github.com/creachadair/mds/mapset"},
@@ -299,6 +299,41 @@ func (m c18mon) unary(i int) {
 	rg := mapset.Range(slices.Values(append(append([]int(nil), want...), want...)))
 	if rg == nil || !sameAs(rg, sm) {
 		m.fail(data, "Range = %v (nil=%v)", rg, rg == nil)
+	}
+	if i <= 1 {
+		// maps that are "set shaped" (value type struct{}), nil and empty
+		for _, in := range []map[int]struct{}{nil, {}, mapset.Set[int](nil), mapset.New[int]()} {
+			if k := mapset.Keys(in); k == nil || len(k) != 0 {
+				m.fail(data, "Keys(%#v) = %v (nil=%v), want a non-nil empty set", in, k, k == nil)
+			}
+		}
+		var nilv map[int]struct{}
+		if v := mapset.Values(nilv); v == nil || len(v) != 0 {
+			m.fail(data, "Values(nil map[int]struct{}) = %v (nil=%v)", v, v == nil)
+		}
+	}
+	if ks2 := mapset.Keys(map[int]struct{}(s)); ks2 == nil || !sameAs(ks2, sm) {
+		m.fail(data, "Keys(set used as a map) = %v (nil=%v)", ks2, ks2 == nil)
+	} else if s != nil {
+		ks2.Add(0, 1, 2, 3, 4)
+		if !sameAs(s, sm) {
+			m.fail(data, "Keys(set used as a map) aliases its argument")
+		}
+	}
+	if s != nil {
+		// a second handle to the same (non-nil) set: a Set is a map, so both see every change
+		c.Add("second_handle_checks", 1)
+		h := s
+		h.Add(c18U - 1)
+		if !s.Has(c18U-1) || len(s) != len(h) {
+			m.fail(data, "an element added through a copy of the Set value is not visible through the original (%v vs %v)", s, h)
+		}
+		h2 := s.Clear()
+		h2.Add(0)
+		if !s.Has(0) || len(s) != 1 {
+			m.fail(data, "an element added through the value returned by Clear is not visible through the receiver (%v vs %v)", s, h2)
+		}
+		s, _ = c18mk(i)
 	}
 	if ns := mapset.NewSize[int](len(want)); ns == nil || len(ns) != 0 {
 		m.fail(data, "NewSize = %v", ns)
